@@ -475,6 +475,26 @@ class C13(Prop):
                                   for l in lines[1:]]
         return lines
 
+    def _long(self, rng):
+        """a long life of one object: 20-60 calls, mostly ingests, on a small configuration — counters pass 16 / 32,
+        the emergency and the auto digest run many times each"""
+        mq = rng.choice([2, 3, 4, 5, 8])
+        lines = [f"cfg {mq} {rng.choice([mq + 1, 1000, 2, 3, mq])} {rng.choice(RETS)} "
+                 f"{rng.choice(['ssss', 'ssss', 'bbbb', 'sbsb'])} b {rng.choice(['set', 'set', 'none'])}"]
+        for k in range(rng.choice([20, 24, 33, 40, 60])):
+            r = rng.random()
+            if r < 0.72:
+                lines.append(f"ingest {rng.choice(TYPES)} {k + 1} {rng.choice([2, 2, 3, 1, 0, 5, 6])}")
+            elif r < 0.80:
+                lines.append(f"ingest_sensitive {k + 1} {rng.choice([1, 1, 0])}")
+            elif r < 0.90:
+                lines.append(f"digest {rng.choice([1, 2, 'none'])}")
+            elif r < 0.95:
+                lines.append("autophagy")
+            else:
+                lines.append(f"adv {rng.choice([1, 3515625, 86400000000, 172800000000])}")
+        return lines
+
     def _twins(self, rng):
         """several wastes that are EQUAL as values (same type, id, content code, clock reading — distinct objects) in one
         queue, met by partial digests, the emergency / auto digest and autophagy: accounting is per object"""
@@ -542,6 +562,8 @@ class C13(Prop):
                        "note": "digesters that return values dict.update cannot merge / merges only part of"}
             elif r < 0.46:
                 yield {"lines": self._twins(rng), "note": "wastes equal as values, distinct as objects"}
+            elif r < 0.49:
+                yield {"lines": self._long(rng), "note": "a long history on one small object"}
             else:
                 yield {"lines": self._history(rng, rng.choice([1, 2, 3, 4, 6, 8, 10, 12, 14])), "note": "random history"}
 
@@ -782,8 +804,10 @@ class C13(Prop):
         if mode == "s" or ty == "tox":
             return {"c": c, "id": i}
         if ty == "mis":
+            # 4 / 5: legal content on which the BUILT-IN digester itself raises (`content['raw_input'][:200]`)
             return {1: {"raw_input": str(seq)}, 2: {"error": str(seq)},
-                    3: {"raw_input": str(seq), "error": str(seq)}}.get(c, "not-a-dict" if c == 0 else {})
+                    3: {"raw_input": str(seq), "error": str(seq)}, 4: {"raw_input": 5 + seq},
+                    5: {"raw_input": None, "error": str(seq)}}.get(c, "not-a-dict" if c == 0 else {})
         if ty == "fop":
             return "not-a-dict" if c == 0 else {"error_type": f"E{c}", "context": {"seq": seq}}
         if ty == "orp":
